@@ -173,7 +173,16 @@ func c05(c *an.Ctx) {
 			o.FailAt(si, "safeInvoke must be called synchronously")
 		}
 		cc := an.CallOf(si)
-		if !an.IsFieldAccess(cc.Args[1], "Func", "Many") || !bgField(cc.Args[2], "args") {
+		okMany, okArgs := false, false
+		for _, a := range cc.Args { // whatever the parameter order of safeInvoke
+			if an.IsFieldAccess(a, "Func", "Many") {
+				okMany = true
+			}
+			if bgField(a, "args") {
+				okArgs = true
+			}
+		}
+		if !okMany || !okArgs {
 			o.FailAt(si, "safeInvoke is not given (f.Many, bg.args)")
 		}
 		if an.InCycle(fn, si) {
@@ -497,8 +506,13 @@ func c05(c *an.Ctx) {
 		// the defer dominates the dynamic call of f
 		var fcall ssa.Instruction
 		an.Instrs(fn, func(i ssa.Instruction) {
-			if cc := an.CallOf(i); cc != nil && cc.Value == fn.Params[1] {
-				fcall = i
+			if cc := an.CallOf(i); cc != nil {
+				// the call through the parameter of function type (wherever it is in the parameter list)
+				if pa, ok := cc.Value.(*ssa.Parameter); ok && pa.Parent() == fn {
+					if _, isFn := pa.Type().Underlying().(*types.Signature); isFn {
+						fcall = i
+					}
+				}
 			}
 		})
 		an.Need(fcall != nil, "f(ctx, args) in safeInvoke")
